@@ -29,24 +29,31 @@ ASSUMPTIONS = [
     'PATH_INFO is a WSGI latin-1 string (code points < 256)',
 ]
 TRUSTED = [
-    'hand-written model coq/Model/C01.v of _compile_route / RoutesMapper.connect / RoutesMapper.__call__ (shape-pinned, '
-    'string-literal facts regenerated)',
+    'the PRIMITIVE TABLE of harness/c01/translate.py (about 45 lines: each maps one Python/WebOb/Pyramid leaf expression or '
+    'statement onto a primitive of coq/Model/C01.v) and the translator itself (fail-closed Python-ast -> Gallina, control '
+    'flow mechanical); its output is proved equal to the hand-written reference model on every run',
+    'hand-written model of the parts NOT translated: the pattern parser part of _compile_route (masked shape pin + '
+    'regenerated string literals), Router.handle_request, RoutesMapper.__init__, update_pattern (shape pins)',
     "CPython re for the supported sublanguage and re.escape, WebOb's PATH_INFO decoding (modelled, validated by the "
     'correspondence run, not verified)',
-    'traversal.split_path_info modelled by Lib/PathNorm (shape-pinned)',
 ]
-TECHNIQUE = ('Coq proof (induction over pattern items / backtracking matcher / route list) on a hand-written Gallina model '
-             '+ regenerated string facts + extracted-model differential correspondence')
+TECHNIQUE = ('control-flow model REGENERATED from the source on every run by a fail-closed Python-ast -> Gallina translator '
+             '(RoutesMapper.__call__, RoutesMapper.connect, Route.__init__, the matcher closure of _compile_route, split_path_info, '
+             'decode_path_info) + Coq proofs that the regenerated program equals the hand-written reference model and satisfies '
+             'the property theorems + regenerated string facts + differential correspondence of the extracted regenerated program')
 LEVEL_TEXT = ('Machine-checked theorems for every pattern of the modelled sublanguage, every path and every route list: the '
               'backtracking matcher of the compiled pattern is sound, complete and greedy w.r.t. a declarative decomposition '
               'of the WHOLE path (this depends on the regenerated anchor and remainder-group facts), it equals the executable '
-              'specification, and RoutesMapper.__call__ returns exactly the first route in order whose pattern matches and '
-              'whose predicates hold (none if no route qualifies; URLDecodeError before any matching for invalid UTF-8). '
-              'The model is tied to the code by shape pins, regenerated literals and a differential run of the extracted '
-              'model against RoutesMapper and Router.')
-LEVEL_NOTE = ('Trusted: Coq kernel; hand-written model (validated by correspondence, shape-pinned); Python harness; re / '
-              're.escape / WebOb decoding modelled not verified; arbitrary user regexes inside {name:regex} are outside the '
-              'model; pregenerators and debug_routematch logging not covered.')
+              'specification, and the program regenerated from RoutesMapper.__call__ / connect / Route.__init__ / the matcher '
+              'closure / split_path_info on this run is proved equal to the reference model and to return exactly the first route '
+              'in declaration order (last declaration of a name wins) whose pattern matches and whose predicates hold (none if no '
+              'route qualifies; URLDecodeError before any matching for invalid UTF-8), independently of earlier dispatches. The '
+              'extracted regenerated program is run against RoutesMapper and Router.')
+LEVEL_NOTE = ('Trusted: Coq kernel; the translator and its primitive table (harness/c01/translate.py); the hand-written model of the '
+              'pattern parser (masked pin + regenerated literals) and the link between the matcher closure\'s groupdict and the '
+              'AST-level matcher (validated by correspondence); Python harness; re / re.escape / WebOb decoding modelled not '
+              'verified; arbitrary user regexes inside {name:regex} are outside the model; Router.handle_request is pinned, not '
+              'translated; pregenerators and debug_routematch logging not covered.')
 
 facts = c01facts.facts
 
